@@ -179,10 +179,17 @@ def main():
         e = Engine(fns, consts, extern, max_steps=100000)
         e.steps = 0
         e.discriminants = {"ControlFlow::Continue": 0, "ControlFlow::Break": 1, "Result::Ok": 0, "Result::Err": 1}
+        src = open(os.path.join(repo, "interpreter/src/objects.rs")).read()
+        body = src[src.index("pub enum Value {"):]
+        body = body[:body.index("\n}")]
+        for k_, nme in enumerate(re.findall(r"^\s{4}([A-Z]\w*)[\(,\n {]", body, re.M)):
+            e.discriminants["Value::" + nme] = k_
         return e
 
     okv = lambda j: ("enum", "Result::Ok", [("abs_val", j)])
     errv = lambda j: ("enum", "Result::Err", [("child_error", j)])
+
+    undecided = []
 
     def drive(desc, steps, state, end_fn, judge):
         """steps: list of (fn, args-builder); runs them in order on `state`, stops at the first Err, then calls end"""
@@ -201,6 +208,10 @@ def main():
                 final = eng.call_fn(end_fn, [holder[0]])
         except PanicFound as p:
             failures.append(dict(desc, problems=["panic reachable: %s" % p.msg]))
+            return
+        except Unsupported as u:
+            # a scenario that meets an unmodelled operation is undecided (never a pass); the other scenarios are still decided
+            undecided.append("%s: %s" % (json.dumps(desc), str(u)[:160]))
             return
         stats["paths"] += 1
         probs = judge(outs, final, holder[0])
@@ -301,22 +312,28 @@ def main():
         send = method("impl ser::SerializeStruct for SerializeMap", "end")
         vsfn = method("impl ser::SerializeStructVariant for SerializeStructVariant", "serialize_field")
         vsend = method("impl ser::SerializeStructVariant for SerializeStructVariant", "end")
-        for label, fn, endf in (("struct", sfn, send), ("struct variant", vsfn, vsend)):
-            for n in range(0, DEPTH + 1):
-                for bad in [None] + list(range(n)):
+        # field values: abstract, or real values of the kinds a serializer could be tempted to treat specially (null from
+        # None / unit, zero, false, an empty list)
+        VALS = {"abstract": lambda j: ("abs_val", j), "null": lambda j: ("enum", "Value::Null", []), "zero": lambda j: ("enum", "Value::Int", [0]),
+                "false": lambda j: ("enum", "Value::Bool", [False]), "empty list": lambda j: ("enum", "Value::List", [("arc", ("vec", []))])}
+        for label, fn, endf, vk in [(l_, f_, e_, "abstract") for (l_, f_, e_) in (("struct", sfn, send), ("struct variant", vsfn, vsend))] + \
+                                   [(l_, f_, e_, vk_) for (l_, f_, e_) in (("struct", sfn, send), ("struct variant", vsfn, vsend)) for vk_ in ("null", "zero", "false", "empty list")]:
+            val = VALS[vk]
+            for n in (range(0, DEPTH + 1) if vk == "abstract" else (1, 2)):
+                for bad in ([None] + list(range(n)) if vk == "abstract" else [None]):
                     names = ["f%d" % j for j in range(n)]
                     cur.clear()
-                    cur.update({"events": [], "results": {j: (errv(j) if bad == j else okv(j)) for j in range(n)},
+                    cur.update({"events": [], "results": {j: (errv(j) if bad == j else ("enum", "Result::Ok", [val(j)])) for j in range(n)},
                                 "key_results": {"field:" + nm: ("enum", "Result::Ok", [("key", nm)]) for nm in names}})
                     state = [("string", "Variant"), ["hashmap", []]] if label == "struct variant" else [["hashmap", []], ("None",)]
                     steps = [(fn, [("str", names[j].encode()), Ref({0: ("elem", j)}, 0, ())]) for j in range(n)]
 
-                    def judge(outs, final, st, n=n, bad=bad, label=label, names=names):
+                    def judge(outs, final, st, n=n, bad=bad, label=label, names=names, val=val):
                         probs = []
                         done = n if bad is None else bad
                         hm = st[1][1] if label == "struct variant" else st[0][1]
                         got = {x[0][1]: x[1] for x in hm}
-                        want = {names[j]: ("abs_val", j) for j in range(done)}
+                        want = {names[j]: val(j) for j in range(done)}
                         if got != want or len(hm) != len(want):
                             probs.append("fields collected %s, expected %s" % (sorted(got.items()), sorted(want.items())))
                         if bad is not None:
@@ -336,7 +353,7 @@ def main():
                             if fin != want:
                                 probs.append("end() map is %s" % (sorted(fin.items()),))
                         return probs
-                    drive({"serializer": label, "fields": n, "failing": bad}, steps, state, endf, judge)
+                    drive({"serializer": label, "fields": n, "failing": bad, "field_values": vk}, steps, state, endf, judge)
         # ---- the Duration wrapper: SerializeTimestamp::end assembles secs + nanos into a chrono duration
         MAXMS = 2 ** 63 - 1
         secs, nanos = z3.Int("secs"), z3.Int("nanos")
@@ -406,6 +423,9 @@ def main():
         if os.environ.get("MIRSYM_TRACE"):
             import traceback
             traceback.print_exc()
+    if undecided:
+        status = 2
+        print("INCONCLUSIVE: %d scenarios undecided, e.g. unsupported: %s" % (len(undecided), undecided[0][:300]))
     if failures:  # a counterexample stands even if a later scenario met an unmodelled call (it is replayed natively anyway)
         status = 1
     out = {"functions_encoded": sorted(stats["functions"]), "scenarios": stats["scenarios"], "paths": stats["paths"], "paths_proved": stats["proved"],
